@@ -718,8 +718,26 @@ func (d *brokerDrv) Step(line string) string {
 		time.Sleep(time.Duration(drv.Atoi(pos[0])) * time.Millisecond)
 		return d.collect("")
 	case "counts":
-		on, off, wills, qs, uas := d.b.Srv.VerifCounts()
-		return fmt.Sprintf("online=%d offline=%d wills=%d queues=%d unacks=%d", on, off, wills, qs, uas)
+		// VerifCounts takes server.mu: with the lock leaked (a seeded defect) the call never returns — report that instead of
+		// hanging until the stream's timeout
+		type cnt struct{ on, off, wills, qs, uas int }
+		ch := make(chan cnt, 1)
+		srv := d.b.Srv
+		go func() {
+			on, off, wills, qs, uas := srv.VerifCounts()
+			ch <- cnt{on, off, wills, qs, uas}
+		}()
+		limit := 5 * time.Second
+		if d.b.Hang {
+			limit = 500 * time.Millisecond
+		}
+		select {
+		case c := <-ch:
+			return fmt.Sprintf("online=%d offline=%d wills=%d queues=%d unacks=%d", c.on, c.off, c.wills, c.qs, c.uas)
+		case <-time.After(limit):
+			d.b.Hang = true
+			return "HANG counts: server.mu is not released"
+		}
 	case "stop":
 		ok := d.b.Stop(3 * time.Second)
 		r := d.collect("")
